@@ -525,7 +525,11 @@ PROPS["C05"] = dict(
          "info / modulus / options / constraint count, unique-query count, commitments, query values and openings, OOD frame, "
          "FRI layers / remainder / partition exponent, nonce) set to boundary values, +-1, bit flips; several header bytes at "
          "once; huge variable-length integers spliced in; truncation at any offset; deleted / duplicated ranges at component "
-         "boundaries; random bytes; splices of two proofs; random strings: Proof::from_bytes then verify under OptionSet, "
+         "boundaries; random bytes; splices of two proofs; random strings; OOD-patched proofs (a seed-bound context field - "
+         "queries 1 / LDE-1 / LDE / 255, grinding 32, constraint count - is edited, z and the constraint evaluation are "
+         "recomputed under the new seed with public Air methods, the first composition-column claim is overwritten so the "
+         "out-of-domain equation holds and the nonce is re-ground: this reaches FriVerifier::new, the proof-of-work check, "
+         "draw_integers and the opening checks with a consistent transcript): Proof::from_bytes then verify under OptionSet, "
          "MinConjecturedSecurity(0) and MinProvenSecurity(0); every component decoder and parser (TraceInfo, ProofOptions, "
          "Context, Commitments, Queries, OodFrame, FriProof, BatchMerkleProof, digests, elements) on mutated component bytes "
          "with random parse parameters; isolated workers under release, overflow/debug-assertion and ASan builds: a panic, "
